@@ -162,7 +162,13 @@ func (fr *frame) goStmt(x *ssa.Go, st *State, reach *string) {
 	default:
 		f = fr.val(x.Call.Value)
 	}
+	var args []Val
+	for _, a := range x.Call.Args {
+		args = append(args, fr.val(a))
+	}
+	fr.spawnArgs = args
 	fr.spawnClosure(f, st, *reach, fmt.Sprintf("go statement in %s", fr.fn.Name()))
+	fr.spawnArgs = nil
 }
 
 func (c *Contract) spawnOK() bool { return len(c.Spawns) > 0 }
